@@ -543,7 +543,16 @@ func transportScenario(r *rec, rng *rand.Rand, idx int) {
 	if perStream {
 		nreq, sizes = 4, []int{20000, 70000}
 	}
-	done := make(chan error, nreq)
+	// every fifth: the peer admits one stream at a time (and the transport is told to honour that on this one connection), a second
+	// upload waits for its turn, and while it waits the peer changes the initial window size; the stream it finally gets starts
+	// with the window in force then
+	queued := idx%5 == 4
+	if queued {
+		mfdrop, perStream = false, false
+		nreq, sizes = 2, []int{20000, 70000}
+		tr.StrictMaxConcurrentStreams = true
+	}
+	done := make(chan error, nreq+1)
 	launch := func(size int, known bool) {
 		go func() {
 			req, _ := http.NewRequest("POST", "http://"+ln.Addr().String()+"/t", &patternReader{n: size})
@@ -563,6 +572,8 @@ func transportScenario(r *rec, rng *rand.Rand, idx int) {
 	}
 	if mfdrop {
 		launch(0, true) // warm-up: the big upload starts on a connection that has seen the peer's SETTINGS
+	} else if queued {
+		launch(20000, true)
 	} else {
 		for i := 0; i < nreq; i++ {
 			launch(sizes[rng.Intn(len(sizes))], rng.Intn(2) == 0)
@@ -667,7 +678,11 @@ func transportScenario(r *rec, rng *rand.Rand, idx int) {
 	if perStream {
 		w0 = []uint32{0, 100}[rng.Intn(2)]
 	}
-	if err := settings(h2raw.Setting{ID: 4, Val: w0}, h2raw.Setting{ID: 5, Val: mf0}, h2raw.Setting{ID: 3, Val: 100}); err != nil {
+	maxc := uint32(100)
+	if queued {
+		w0, maxc = []uint32{65535, 30000, 0}[(idx/5)%3], 1
+	}
+	if err := settings(h2raw.Setting{ID: 4, Val: w0}, h2raw.Setting{ID: 5, Val: mf0}, h2raw.Setting{ID: 3, Val: maxc}); err != nil {
 		r.notes = append(r.notes, fmt.Sprintf("tsend-%d: %v", idx, err))
 		return
 	}
@@ -677,6 +692,74 @@ func transportScenario(r *rec, rng *rand.Rand, idx int) {
 	steps := 6 + rng.Intn(12)
 	if perStream {
 		steps = 0
+	}
+	if queued {
+		steps = 0
+		fail := func(what string) { r.notes = append(r.notes, fmt.Sprintf("tsend-%d (queued): %s", idx, what)) }
+		for by := time.Now().Add(15 * time.Second); len(ids) == 0 && time.Now().Before(by); { // the first upload has started
+			if err := barrier(); err != nil {
+				fail(err.Error())
+				return
+			}
+			time.Sleep(2 * time.Millisecond)
+		}
+		if len(ids) != 1 {
+			fail("the first upload never started")
+			return
+		}
+		launch(70000, rng.Intn(2) == 0) // waits inside the transport: the peer admits one stream
+		time.Sleep(30 * time.Millisecond)
+		if err := barrier(); err != nil {
+			fail(err.Error())
+			return
+		}
+		if len(ids) != 1 {
+			fail("the transport opened a second stream beyond the peer's limit of one")
+			return
+		}
+		w1 := []uint32{100, 5, 40000}[(idx/5)%3] // 65535 -> 100, 30000 -> 5, 0 -> 40000
+		if err := settings(h2raw.Setting{ID: 4, Val: w1}); err != nil {
+			fail(err.Error())
+			return
+		}
+		// let the first upload finish and answer it; the second one gets its stream now
+		conn.Write(h2raw.WindowUpdate(0, 1<<22))
+		r.ev(map[string]any{"op": "wu", "s": 0, "n": 1 << 22, "sure": false})
+		conn.Write(h2raw.WindowUpdate(ids[0], 1<<20))
+		r.ev(map[string]any{"op": "wu", "s": ids[0], "n": 1 << 20, "sure": false})
+		for by := time.Now().Add(15 * time.Second); time.Now().Before(by); {
+			if rs := hc.Resp[ids[0]]; rs != nil && (rs.Ended || rs.Reset) {
+				break
+			}
+			if err := barrier(); err != nil {
+				fail(err.Error())
+				return
+			}
+		}
+		r.ev(map[string]any{"op": "drained", "s": ids[0]})
+		conn.Write(h2raw.Headers(ids[0], true, h2raw.Block([]h2raw.HF{{":status", "200"}}), nil, 0))
+		responded[ids[0]] = true
+		select {
+		case <-done:
+		case <-time.After(5 * time.Second):
+			fail("the first RoundTrip did not finish")
+			return
+		}
+		finished++
+		for by := time.Now().Add(15 * time.Second); len(ids) < 2 && time.Now().Before(by); { // the queued upload gets its stream
+			if err := barrier(); err != nil {
+				fail(err.Error())
+				return
+			}
+			time.Sleep(2 * time.Millisecond)
+		}
+		for i := 0; i < 5; i++ { // ... and sends what the window in force allows, no more
+			if err := barrier(); err != nil {
+				fail(err.Error())
+				return
+			}
+			time.Sleep(5 * time.Millisecond)
+		}
 	}
 	if mfdrop {
 		steps = 0
